@@ -97,12 +97,17 @@ def check_design(ctx, d, steps, regmap, memmap, label):
             base_trace = {w: list(v) for w, v in sim.tracer.trace.items()}
             # step_multiple == one at a time; report = exactly the mismatches
             sim2 = mk_sim(simcls, d.block, register_value_map=dict(regmap), memory_value_map={m: dict(v) for m, v in memmap.items()})
-            provided = {i.name: [s[i.name] for s in steps] for i in d.inputs}
+            # the first `h` cycles one at a time, the rest through step_multiple (step numbers in its report are
+            # relative to the call)
+            h = ctx.rng.randrange(0, len(steps)) if ctx.rng.random() < 0.5 else 0
+            for s in steps[:h]:
+                sim2.step(dict(s))
+            provided = {i.name: [s[i.name] for s in steps[h:]] for i in d.inputs}
             outs = [o.name for o in d.outputs if o.name in base_trace][:4]
             expected, wrong = {}, []
             for o in outs:
                 col = []
-                for c, v in enumerate(base_trace[o]):
+                for c, v in enumerate(base_trace[o][h:]):
                     r = ctx.rng.random()
                     if r < 0.2:
                         col.append('?')
@@ -260,7 +265,7 @@ def main(ctx):
     rng = ctx.rng
     n = ctx.n(60, 1500)
     agree = 0
-    for k in range(n):
+    for k in ctx.loop(n):
         d = gen.rand_design(rng, profile=('small', 'med', 'limb')[k % 3], nops=rng.randint(3, 10), raw=False,
                             name_style=('plain', 'verilog-nospace')[(k // 3) % 2])
         steps = gen.rand_stimulus(rng, d, rng.choice([3, 5, 8]))
